@@ -3,14 +3,18 @@ import Cactus.Lemmas.Basic
 import Cactus.Props.C03
 import Cactus.Props.C14
 /-!
-# C07 — without adoptions, behaves exactly like `std::rc::Rc` / `Weak` (first layer)
+# C07 — without adoptions, behaves exactly like `std::rc::Rc` / `Weak`
 
 An object whose link table is empty is dropped by the `std` algorithm: decrement; at zero destroy
 the value, then release the implicit weak reference; the allocation is freed when the weak count
-reaches zero.  No trace, no purge, no table access beyond the emptiness test.  The simulation of
-the whole machine by a reference model of `std` is `Cactus.Lemmas.StdSim`; the parts of the shared
-API that are not modelled (formatting, comparison, hashing, `From`, `Default`, `pin`) are covered
-by the direct differential run against `std::rc` in the harness.
+reaches zero.  No trace, no purge, no table access beyond the emptiness test.  What is proved here:
+* one-step lemmas: `C07_drop_shared`, `C07_drop_last`, `C07_no_trace`, `C07_new_table_empty`;
+* whole histories of shared-API operations: `C07_same_observations_as_std` (the machine and the
+  reference model `Cactus.Spec.Std` end in the same state up to erasure of tables and sentinel, with
+  the same log), `C07_step_simulation`;
+* example: a 26-operation shared-API history, the theorem instantiated and the common log shown.
+Not proved: the parts of the shared API that are not modelled (formatting, comparison, hashing,
+`From`, `Default`, `pin`) are covered by the direct differential run against `std::rc` in the harness.
 -/
 namespace Cactus
 open State
@@ -57,5 +61,59 @@ theorem C07_same_observations_as_std (ops : List (Op × List Nat)) (hops : ∀ o
 /-- one step of the cycle-aware machine is one step of the `std` machine -/
 theorem C07_step_simulation (s : State) (h : s.Std) (hI : s.Inv) (hS : s.InvS) :
     (step s).erase = stdStep s.erase := step_erase s h hI hS
+
+/-! ## Non-vacuity: a shared-API history and its common observations
+
+Values holding a strong handle and a Weak handle, a destructor script that upgrades its Weak field,
+`try_unwrap` (failing and succeeding), `get_mut`, `make_mut` (clone branch), a raw round trip with
+`increment/decrement_strong_count`, `ptr_eq`, both count queries, a cascading `drop`, `upgrade` of a
+Weak to a destroyed object. -/
+
+instance : DecidablePred Op.shared := fun o => by
+  cases o <;> simp only [Op.shared] <;> infer_instance
+
+def sharedApiHistory : List (Op × List Nat) :=
+  [(.act .new, []), (.act .new, []), (.act .new, []),       -- objects 0, 1, 2; handles [0, 1, 2]
+   (.act (.clone 1), []), (.act (.store 3 0), []),          -- 0's value holds a strong handle to 1
+   (.act (.downgrade 2), []), (.act (.storeWeak 0 0), []),  -- … and a Weak to 2
+   (.setScript 0 [.upgradeField 0, .drop 3], []),           -- 0's destructor upgrades it, drops the result
+   (.act (.downgrade 1), []),                               -- program: Weak to 1
+   (.act (.tryUnwrap 1), []),                               -- 1 is shared: Err              (ret 0)
+   (.act (.getMut 2), []),                                  -- 2 has a Weak: None            (ret 0)
+   (.act (.clone 2), []), (.act (.makeMut 3), []),          -- 2 shared: clones into object 3 (ret 2)
+   (.act (.intoRaw 2), []), (.act (.incStrong 0), []),      -- raw round trip on object 2
+   (.act (.decStrong 0), []), (.act (.fromRaw 0), []),
+   (.act (.ptrEq 2 3), []), (.act (.counts 1), []),         -- 3 ≠ 2 (ret 0); object 1: 2 strong, 1 Weak
+   (.act (.drop 0), []),                                    -- last handle to 0: destructor runs, fields dropped
+   (.act (.wcounts 0), []),                                 -- object 1 through its Weak: 1 strong, 1 Weak
+   (.act (.drop 0), []),                                    -- last strong handle to 1: destroyed, not released
+   (.act (.upgrade 0), []),                                 -- Weak to dead 1: None           (ret 0)
+   (.act (.tryUnwrap 0), []), (.act (.dropValue 0), []),    -- 3 is unique: Ok (ret 1); drop the value
+   (.act (.dropWeak 0), [])]                                -- last Weak to 1: allocation released
+
+/-- the hypothesis of `C07_same_observations_as_std` holds (script included) -/
+theorem sharedApiHistory_shared : ∀ oh ∈ sharedApiHistory, oh.1.shared := by decide
+
+/-- the theorem instantiated: same final state up to erasure, same log, same error status -/
+example : (run sharedApiHistory).erase = stdRun sharedApiHistory :=
+  (C07_same_observations_as_std sharedApiHistory sharedApiHistory_shared).2.2
+
+example : (run sharedApiHistory).log = (stdRun sharedApiHistory).log :=
+  (C07_same_observations_as_std sharedApiHistory sharedApiHistory_shared).1
+
+/-- the common log, by evaluation on each machine separately -/
+example : (run sharedApiHistory).err = none ∧ (stdRun sharedApiHistory).err = none
+    ∧ (run sharedApiHistory).log =
+      [.ret 0, .ret 0, .ret 2, .ret 0, .ret 2, .ret 1, .destroyed 0, .ret 1, .freed 0, .ret 1, .ret 1,
+       .destroyed 1, .ret 0, .freed 3, .ret 1, .destroyed 3, .freed 1]
+    ∧ (stdRun sharedApiHistory).log =
+      [.ret 0, .ret 0, .ret 2, .ret 0, .ret 2, .ret 1, .destroyed 0, .ret 1, .freed 0, .ret 1, .ret 1,
+       .destroyed 1, .ret 0, .freed 3, .ret 1, .destroyed 3, .freed 1] := by
+  decide +kernel
+
+/-- and no link table was ever touched, no trace ran (`C14_program_without_adoptions_never_traces`
+applies too: the shared API contains no `adopt`/`link`) -/
+example : ∀ e ∈ (run sharedApiHistory).log, ∀ o v p, e ≠ Ev.traced o v p :=
+  C14_program_without_adoptions_never_traces sharedApiHistory (by decide)
 
 end Cactus
